@@ -90,7 +90,7 @@ pub fn check(ctx: &Ctx, rep: &mut Report) {
         }
     }
     // random unicode strings
-    let nrand = ctx.size(1_000_000, 10_000_000) / ctx.nshards;
+    let nrand = ctx.size(1_000_000, 60_000_000) / ctx.nshards;
     for k in 0..nrand {
         let n = total + k;
         if !ctx.wants(n) {
